@@ -99,6 +99,8 @@ def _one(args):
     try:
         r2 = Repo(repo.root, overrides=overrides, base=repo)
         ctx = report.Ctx(r2, prop, "quick")
+        if kind == "fault":
+            ctx.ALIGN_MAX = 10 ** 6     # the catalogue tests the rules themselves; the alignment gate (report.Ctx.bad) is tested by its own entries
         mod.run(ctx)
     except Exception as e:  # a variant that breaks the analysis is a failure of the checker
         if kind == "fault" and v.get("rule") == "ANALYSIS-ERROR":
